@@ -180,14 +180,18 @@ func (st *State) zeroElems(sv *SliceV) {
 		case SBool:
 			z = TFalse
 		case SStr:
-			z = st.strLit("")
+			// (as const ...) needs a value; elements of a fresh string array are left unconstrained
+			// (weaker than Go's zero initialisation, hence sound)
+			inner := st.fresh("strarr", ArrS(SInt, SStr))
+			st.heapSetInner(key, arr, sv.Base, inner)
+			continue
 		case SReal:
 			z = RealLit(0)
 		default:
 			z = IntLit(0)
 		}
 		inner := ArrS(SInt, l.Sort)
-		st.heapSet(key, Store(arr, sv.Base, App(inner, fmt.Sprintf("(as const %s)", sortStr(inner)), z)))
+		st.heapSetInner(key, arr, sv.Base, App(inner, fmt.Sprintf("(as const %s)", sortStr(inner)), z))
 	}
 }
 
